@@ -29,8 +29,8 @@ from ..core import Case, Check, log, parse_model
 I64MAX, I64MIN = 2 ** 63 - 1, -(2 ** 63)
 
 SIZES = {
-    "quick": {"rand_file": 500, "rand_sql": 300, "big_reads": 1, "ln_rand": 60, "vals_rand": 40},
-    "thorough": {"rand_file": 6000, "rand_sql": 4000, "big_reads": 3, "ln_rand": 600, "vals_rand": 400},
+    "quick": {"rand_u8ops": 150, "rand_file": 500, "rand_sql": 300, "big_reads": 1, "ln_rand": 60, "vals_rand": 40},
+    "thorough": {"rand_u8ops": 3000, "rand_file": 6000, "rand_sql": 4000, "big_reads": 3, "ln_rand": 600, "vals_rand": 400},
 }
 
 FILE_SIZES = [0, 1, 4095, 4096, 4097, 8191, 8192, 10000]
@@ -237,8 +237,256 @@ def u8_impl_answers(uc, iraw):
     return out
 
 
+# ------------------------------------------------------------------------------------------------ utf8 plugin: every method
+class U8OpsCase:
+    """a history of method calls on `U = utf8(S)` (second object `V = utf8(T)`, typed null object `NO`) through the REAL
+    utf8 plugin, against the driver command `u8p` (Utf8.pstep: the plugin's method table). After every call the state is
+    read back with count() / rawsize() / string()."""
+    MEM = 1 << 32          # the model's memLimit: requests are either <= 10^6 elements or >= 2^40 (never in between)
+
+    def __init__(self, text, other):
+        self.text, self.other = text, other
+        self.kind = "u8.plugin_ops"
+        self.toks = []
+        self.progs = []
+        self.sets = []
+        self.nvar = 0
+
+    def var(self, canon):
+        self.nvar += 1
+        n = "A%d" % self.nvar
+        self.sets.append((n, canon))
+        return n
+
+    def ivar(self, n):
+        return self.var("N:i0" if n is None else "I:%d" % n)
+
+    @staticmethod
+    def itok(n):
+        return "null" if n is None else str(n)
+
+    def add(self, tok, stmt):
+        self.toks.append(tok)
+        self.progs.append([stmt, "return U.count();", "return U.rawsize();", "return U.string();"])
+
+    def who(self, w):
+        return {"s": "U", "o": "V", None: "NO"}[w], ("null" if w is None else w)
+
+    def op(self, name, *a):
+        it = self.itok
+        if name in ("em", "ct", "rw", "cl", "st"):
+            self.add(name, "return U.%s();" % {"em": "empty", "ct": "count", "rw": "rawsize", "cl": "clear", "st": "string"}[name])
+        elif name == "rv":
+            self.add("rv:%s" % it(a[0]), "return U.reserve(%s);" % self.ivar(a[0]))
+        elif name == "ap":
+            self.add("ap:%s" % it(a[0]), "return U.append(%s).count();" % self.ivar(a[0]))
+        elif name == "al":
+            self.add("al:%s" % ("null" if a[0] is None else dot(a[0])), "return U.append(%s).count();" % self.var(sval(a[0])))
+        elif name == "cc":
+            v, w = self.who(a[0])
+            self.add("cc:%s" % w, "return U.concat(%s).count();" % v)
+        elif name == "at":
+            self.add("at:%s" % it(a[0]), "return U.at(%s);" % self.ivar(a[0]))
+        elif name == "rm":
+            self.add("rm:%s:%s" % (it(a[0]), it(a[1])), "return U.remove(%s, %s);" % (self.ivar(a[0]), self.ivar(a[1])))
+        elif name == "in":
+            self.add("in:%s:%s" % (it(a[0]), it(a[1])), "return U.insert(%s, %s);" % (self.ivar(a[0]), self.ivar(a[1])))
+        elif name == "ic":
+            v, w = self.who(a[1])
+            self.add("ic:%s:%s" % (it(a[0]), w), "return U.insert(%s, %s);" % (self.ivar(a[0]), v))
+        elif name == "s1":
+            self.add("s1:%s" % it(a[0]), "return U.substr(%s);" % self.ivar(a[0]))
+        elif name == "s2":
+            self.add("s2:%s:%s" % (it(a[0]), it(a[1])), "return U.substr(%s, %s);" % (self.ivar(a[0]), self.ivar(a[1])))
+        else:
+            raise ValueError(name)
+
+    def model_line(self):
+        return "u8p %d %s %s %s" % (self.MEM, "null" if self.text is None else dot(self.text), dot(self.other), " ".join(self.toks))
+
+    def impl_line(self):
+        ops = ["new 0 t", "set 0 %s %s" % (hx(b"S"), sval(self.text)), "set 0 %s %s" % (hx(b"T"), sval(self.other))]
+        ops += ["set 0 %s %s" % (hx(n.encode()), v) for n, v in self.sets]
+        ops.append("prog 0 " + hx(b"import utf8; U = utf8(S); V = utf8(T);"))
+        ops.append("set 0 %s N:o0:1" % hx(b"NO"))          # a null object of the utf8 type (the first imported module: minor 1)
+        for st in self.progs:
+            for x in st:
+                ops.append("prog 0 " + hx(x.encode()))
+        return "|".join(ops)
+
+    def nsetup(self):
+        return 3 + len(self.sets) + 2
+
+
+def u8ops_impl_answer(pc, iraw):
+    """canonical implementation answer: `<res>,<count>,<rawsize>,<string>;…` (the vocabulary of the driver's `u8p`)"""
+    if iraw.startswith("crash ") or iraw.endswith("diverges"):
+        return iraw
+    parts = iraw.split("|")
+    if any(p.startswith("foreign-exception") or p.startswith("uncaught-") for p in parts):
+        return "foreign-exception " + "|".join(p for p in parts[pc.nsetup():] if p)[-160:]
+    setup = parts[:pc.nsetup()]
+    if any(p != "ok" and p != "ok-" for p in setup):
+        return "setup-failed " + "|".join(setup)[:200]
+    res = parts[pc.nsetup():]
+    toks = []
+    for k, tok in enumerate(pc.toks):
+        r = [val_of(x) for x in res[4 * k:4 * k + 4]]
+        if len(r) < 4:
+            toks.append("?missing")
+            continue
+        cnt = r[1][2:] if r[1].startswith("I:") else "?" + r[1]
+        raw = r[2][2:] if r[2].startswith("I:") else "?" + r[2]
+        st = (r[3][2:] or ".") if r[3].startswith("S:") else "?" + r[3]
+        a = r[0]
+        if a == "E":
+            a = "Ei"
+        elif a == "E22":
+            a = "Er"
+        elif a == "S:":
+            a = "S:."
+        elif tok.split(":")[0] in ("ap", "al", "cc"):
+            a = "T" if a == "I:" + cnt else "?" + a
+        toks.append("%s,%s,%s,%s" % (a, cnt, raw, st))
+    return ";".join(toks)
+
+
+# ------------------------------------------------------------------------------------------------ csv plugin glue
+class CsvPCase:
+    """`C = csv(...)` and a history of serialize / deserialize / deserialize_next / in_error / error_pos calls on the table
+    variable T through the REAL csv plugin (plugin_csv.cpp: constructor arguments, BLOC table <-> vector copies, null
+    checks), against the driver command `csvp` (CsvPlugin.step). After every call T is read back."""
+
+    def __init__(self, ctor, table):
+        self.ctor, self.table = ctor, table          # ctor: ("d",) | ("f", bytes|None) | ("c", int|None, int|None)
+        self.kind = "csv.plugin"
+        self.toks = []
+        self.progs = []
+        self.sets = []
+        self.nvar = 0
+
+    def var(self, canon):
+        self.nvar += 1
+        n = "A%d" % self.nvar
+        self.sets.append((n, canon))
+        return n
+
+    @staticmethod
+    def ttok(t):
+        if t is None:
+            return "null"
+        if not t:
+            return "-"
+        return ",".join("~" if e is None else dot(e) for e in t)
+
+    @staticmethod
+    def tcanon(t):
+        if t is None:
+            return "N:s1"
+        return "Ts1[%s]" % ",".join("N:s0" if e is None else "S:" + hx(e) for e in t)
+
+    def op(self, name, line=b""):
+        if name in ("se", "ie", "ep"):
+            self.toks.append(name)
+            self.progs.append("return C.%s;" % {"se": "serialize(T)", "ie": "in_error()", "ep": "error_pos()"}[name])
+        else:
+            self.toks.append("%s:%s" % (name, "null" if line is None else dot(line)))
+            self.progs.append("return C.%s(%s, T);" % ({"de": "deserialize", "dn": "deserialize_next"}[name], self.var(sval(line))))
+
+    def ctor_tok(self):
+        c = self.ctor
+        if c[0] == "d":
+            return "d"
+        if c[0] == "f":
+            return "f:%s" % ("null" if c[1] is None else dot(c[1]))
+        return "c:%s:%s" % tuple("null" if x is None else str(x) for x in c[1:])
+
+    def ctor_src(self):
+        c = self.ctor
+        if c[0] == "d":
+            return "C = csv();"
+        if c[0] == "f":
+            return "C = csv(%s);" % self.var(sval(c[1]))
+        return "C = csv(%s, %s);" % tuple(self.var("N:i0" if x is None else "I:%d" % x) for x in c[1:])
+
+    def model_line(self):
+        return "csvp %s %s %s" % (self.ctor_tok(), self.ttok(self.table), " ".join(self.toks))
+
+    def impl_line(self):
+        src = self.ctor_src()          # (allocates its variables)
+        ops = ["new 0 t", "set 0 %s %s" % (hx(b"T"), self.tcanon(self.table))]
+        ops += ["set 0 %s %s" % (hx(n.encode()), v) for n, v in self.sets]
+        ops.append("prog 0 " + hx(b"import csv;"))
+        ops.append("prog 0 " + hx((src + " return true;").encode()))
+        for st in self.progs:
+            ops.append("prog 0 " + hx(st.encode()))
+            ops.append("prog 0 " + hx(b"return T;"))
+        return "|".join(ops)
+
+    def nsetup(self):
+        return 2 + len(self.sets) + 1
+
+
+def py_csv_write(row, sep, enc):
+    """independent CSV writer: a field is quoted when it holds the separator, the quote, CR or LF; quotes are doubled"""
+    out = []
+    for f in row:
+        if any(b in (sep, enc, 13, 10) for b in f):
+            out.append(bytes([enc]) + f.replace(bytes([enc]), bytes([enc, enc])) + bytes([enc]))
+        else:
+            out.append(f)
+    return bytes([sep]).join(out)
+
+
+_TELEM = re.compile(r"N:s0|S:[0-9a-f]*")
+
+
+def csvp_table(v):
+    """probe dump of T -> the driver's table text"""
+    if v.startswith("N:"):
+        return "null"
+    if not v.startswith("Ts1["):
+        return "?" + v[:60]
+    el = _TELEM.findall(v[4:])
+    if not el:
+        return "-"
+    return ",".join("~" if e == "N:s0" else (e[2:] or ".") for e in el)
+
+
+def csvp_impl_answer(cc, iraw):
+    if iraw.startswith("crash ") or iraw.endswith("diverges"):
+        return iraw
+    parts = iraw.split("|")
+    if any(p.startswith("foreign-exception") or p.startswith("uncaught-") for p in parts):
+        return "foreign-exception " + "|".join(p for p in parts[cc.nsetup():] if p)[-160:]
+    setup = parts[:cc.nsetup()]
+    if any(p != "ok" and p != "ok-" for p in setup):
+        return "setup-failed " + "|".join(setup)[:200]
+    res = parts[cc.nsetup():]
+    if not res:
+        return "?missing"
+    if res[0].startswith("rerr"):
+        return "E"
+    if res[0] != "ok B:1":
+        return "?ctor " + res[0][:80]
+    toks = ["ok"]
+    for k in range(len(cc.toks)):
+        r = res[1 + 2 * k:3 + 2 * k]
+        if len(r) < 2:
+            toks.append("?missing")
+            continue
+        a = val_of(r[0])
+        if a == "S:":
+            a = "S:."
+        elif a.startswith("N:"):
+            a = "N"
+        toks.append("%s|%s" % (a, csvp_table(val_of(r[1]))))
+    return ";".join(toks)
+
+
 # ------------------------------------------------------------------------------------------------ sqlite cases
 SQL_CREATE = 'D.exec("CREATE TABLE t(a)")'
+SQL_CREATE_NN = 'D.exec("CREATE TABLE t(a NOT NULL)")'
 SQL_INSERT = '"INSERT INTO t VALUES(?)"'
 SQL_SELECT = '"SELECT a, typeof(a) FROM t"'
 SQL_PARAM = '"SELECT ?1, typeof(?1)"'
@@ -274,7 +522,7 @@ class SqlCase:
 
     def op(self, tok, args="-"):
         simple = {"n0": "D = sqlite3(); return true;", "op": "return D.open(P);", "cl": "return D.close();", "io": "return D.isopen();",
-                  "em": "return D.errmsg();", "cr": "return %s;" % SQL_CREATE, "xn": "return D.exec(NS);",
+                  "em": "return D.errmsg();", "cr": "return %s;" % SQL_CREATE, "cn": "return %s;" % SQL_CREATE_NN, "xn": "return D.exec(NS);",
                   "qa": "return D.query(%s);" % SQL_SELECT, "pi": "return D.prepare(%s);" % SQL_INSERT,
                   "ps": "return D.prepare(%s);" % SQL_SELECT, "pn": "return D.prepare(NS);", "pb": 'return D.prepare("SELEC");',
                   "ex": "return D.execute();", "hd": "return D.header();", "fe": "if D.fetch(Z) then return Z; end if; return false;",
@@ -498,6 +746,25 @@ class Half:
                 fc.simple("p")
                 fc.close()
                 out.append(fc)
+        # F1c: read sizes around the 4096-byte internal buffer, at offsets where MORE data follows the request (a loop that
+        # over-reads, or mis-sizes its last chunk, moves the position too far and shifts every later transfer)
+        data = self.rbytes(30000)
+        for off in (0, 1, 100, 4095, 4096, 4097):
+            for cnt in (4095, 4096, 4097, 5000, 8191, 8192, 8193, 12288, 12289):
+                for kind in "SB":
+                    fc = self.fcase("file.bufedge", data)
+                    fc.open("@", r.choice([b"r", b"r+", b"a+"]))
+                    fc.seek("set", off)
+                    fc.read(cnt, kind)
+                    fc.simple("p")
+                    fc.read(r.choice([1, 4097, 8193]), r.choice("SB"))
+                    fc.simple("p")
+                    fc.readln()
+                    fc.simple("p")
+                    fc.seek("cur", -3)
+                    fc.read(5, kind)
+                    fc.close()
+                    out.append(fc)
         # F2: every mode x {no file, small file, file > one buffer}
         for m in MODES:
             for init in (None, b"abc", self.rbytes(5000)):
@@ -819,6 +1086,38 @@ class Half:
                 sc.op("in", ["S:71717171717171717171717171717171717171717171"])
                 sc.ops("ex fi qa cl de")
                 out.append(sc)
+        # a step-time failure (NOT NULL constraint) of exec() / execute(), then MORE bind / execute calls on the same prepared statement:
+        # the values bound afterwards are the ones that must reach the database
+        nulls = ["N:i0", "N:s0", "D:7ff8000000000000", "R:", "N:r0"]
+        goods = ["I:7", "S:74776f", "R:0303", "D:3ff8000000000000", "S:", "I:0", "B:1"]
+        tails = ["bi=G ex", "ex bi=G ex", "bt=G ex ex", "hd fe bi=G ex", "bi=O ex", "bi=G bi=N ex bi=G2 ex", "in=G", "in=N in=G ex",
+                 "fi pi bi=G ex", "bi=G,G2 ex bi=N ex ex bt=G2 ex", "ex ex bi=G ex bi=N ex bi=G2 ex ex"]
+        k = 0
+        for nv in nulls:
+            for pre in ("", "bi=G0 ex", "ex"):
+                for tail in tails:
+                    k += 1
+                    sc = self.scase("sql.stepfail")
+                    sc.ops("op cn pi")
+                    g0, g, g2 = goods[k % len(goods)], goods[(k + 2) % len(goods)], goods[(k + 3) % len(goods)]
+                    seq = (pre + " bi=N ex " + tail).split()
+                    for t in seq:
+                        if "=" in t:
+                            name, a = t.split("=")
+                            sc.op(name, [{"N": nv, "G": g, "G0": g0, "G2": g2, "O": "O"}[x] for x in a.split(",")])
+                        else:
+                            sc.ops(t)
+                    sc.ops("fi qa ps ex fe fe fe fi cl de")
+                    out.append(sc)
+        for nv in nulls:
+            sc = self.scase("sql.stepfail")
+            sc.ops("op cn cr cn")
+            sc.op("in", [nv])
+            sc.op("in", ["I:1"])
+            sc.op("in", [nv, "I:2"])
+            sc.op("in", ["I:2", nv])
+            sc.ops("qa cl de")
+            out.append(sc)
         for _ in range(self.sz["rand_sql"]):
             out.append(self.rand_sql(vals))
         return out
@@ -828,7 +1127,7 @@ class Half:
         sc = self.scase("sql.random")
         sc.ops("op")
         if r.random() < 0.9:
-            sc.ops("cr")
+            sc.ops("cn" if r.random() < 0.35 else "cr")
         small = [v for v in vals if len(v) < 40]
         active = False
         for _ in range(r.randint(3, 14)):
@@ -874,6 +1173,156 @@ class Half:
             out.append(U8AtCase(t, pos))
         return out
 
+    def gen_u8ops(self):
+        """every method of the utf8 plugin's table (except the five table-driven transformations) on the real object"""
+        r = self.rng
+        texts = [None, b"", b"a", b"abc", "A\u00e9\u20ac\U0001f600".encode(), b"a\0b", b"\xff\xfe", b"ab\xe2\x82", "\u00e9".encode() * 50,
+                 b"x" * 300, b"\xc3", b"\xf0\x9f\x98"]
+        others = [b"", b"z", "\u00df\u20ac".encode(), b"\xf0\x9f\x98\x80yy", b"q\xe2"]
+        cps = [65, 0, 233, 50089, 0xE282AC, 0xF09F9880, 0x4142, 0x4100, 0x80, 0xC080, 0xEDA080, 0xF4908080, 2 ** 32 + 65, -1, I64MAX, I64MIN, None]
+        strs = [b"", b"x", "\u00e9".encode(), b"\xa9", b"\x82\xac", b"\x98\x80", b"\0", b"a\xffb", b"\xe2\x82", None, b"\x80", b"\xf0\x9f"]
+        out = []
+
+        def count_of(t):
+            return len((t or b"").decode("utf-8", "ignore").replace("\0", ""))
+
+        def positions(n):
+            return [-1, 0, 1, 2, 3, n - 1, n, n + 1, 2 * n, 2 * n + 1, 1000, I64MAX, I64MIN, 2 ** 32, 2 ** 32 + 1, None]
+
+        # fixed histories: each method once, self / other / null object arguments
+        for t in texts:
+            for o in others[:3]:
+                n = count_of(t)
+                pc = U8OpsCase(t, o)
+                pc.op("em"); pc.op("ct"); pc.op("rw"); pc.op("st")
+                pc.op("rv", 10); pc.op("rv", 0); pc.op("rv", None); pc.op("rv", 1000000)
+                pc.op("al", b"\x82\xac"); pc.op("al", None); pc.op("ap", 65); pc.op("ap", None); pc.op("ap", 50089); pc.op("ap", 0)
+                pc.op("ic", 0, "s"); pc.op("ic", 1, "s"); pc.op("ic", n, "o"); pc.op("ic", 0, None); pc.op("ic", None, "s"); pc.op("ic", 10 ** 6, "s")
+                pc.op("cc", "s"); pc.op("cc", "o"); pc.op("cc", None)
+                pc.op("at", 0); pc.op("at", -1); pc.op("at", None); pc.op("s1", 1); pc.op("s2", 1, 2); pc.op("s2", None, 1)
+                pc.op("rm", 1, 1); pc.op("rm", 0, -1); pc.op("rm", None, 1); pc.op("in", 0, 233); pc.op("in", 0, 50089); pc.op("in", None, 65)
+                pc.op("em"); pc.op("cl"); pc.op("em"); pc.op("rw"); pc.op("ic", 0, "s"); pc.op("cc", "s"); pc.op("ic", 0, "o"); pc.op("st")
+                out.append(pc)
+        # insert of the object into ITSELF at every position (the receiver's own vector is the argument)
+        for t in texts[2:10]:
+            n = count_of(t)
+            for pos in sorted(set([0, 1, 2, n // 2, n - 1, n, n + 1])):
+                if pos < 0:
+                    continue
+                pc = U8OpsCase(t, b"z")
+                pc.kind = "u8.plugin_self"
+                pc.op("ic", pos, "s"); pc.op("st"); pc.op("cc", "s"); pc.op("ic", pos, "s"); pc.op("rw")
+                out.append(pc)
+        # random histories
+        for _ in range(self.sz.get("rand_u8ops", 150)):
+            t, o = r.choice(texts), r.choice(others)
+            pc = U8OpsCase(t, o)
+            n = count_of(t) + 3
+            grow = 0
+            for _ in range(r.randint(3, 12)):
+                k = r.random()
+                P = positions(n)
+                if k < 0.10:
+                    pc.op(r.choice(["em", "ct", "rw", "st"]))
+                elif k < 0.14:
+                    pc.op("rv", r.choice([0, 1, 7, 4096, 1000000, None]))
+                elif k < 0.17:
+                    pc.op("cl"); grow = 0
+                elif k < 0.27:
+                    pc.op("ap", r.choice(cps))
+                elif k < 0.37:
+                    pc.op("al", r.choice(strs))
+                elif k < 0.45:
+                    if grow < 4:
+                        pc.op("cc", r.choice(["s", "s", "o", None])); grow += 1
+                elif k < 0.53:
+                    pc.op("at", r.choice(P))
+                elif k < 0.63:
+                    pc.op("rm", r.choice(P), r.choice(P))
+                elif k < 0.73:
+                    pc.op("in", r.choice(P), r.choice(cps))
+                elif k < 0.85:
+                    if grow < 4:
+                        pc.op("ic", r.choice(P), r.choice(["s", "s", "o", None])); grow += 1
+                elif k < 0.92:
+                    pc.op("s1", r.choice(P))
+                else:
+                    pc.op("s2", r.choice(P), r.choice(P))
+            pc.op("st")
+            out.append(pc)
+        # reserve() with a request no vector can hold / no allocator can serve: recorded finding C18.utf8_reserve_unchecked
+        for n in (-1, 2 ** 61, 2 ** 62, I64MAX, I64MIN, -2, 2 ** 40, 2 ** 50, 2 ** 61 - 1):
+            pc = U8OpsCase(b"ab", b"z")
+            pc.kind = "u8.plugin_reserve"
+            pc.op("ct"); pc.op("rv", n); pc.op("ct")
+            out.append(pc)
+        return out
+
+    def gen_csvp(self):
+        """the csv plugin glue: constructors (null / empty / 1, 2, 3 bytes / multi-byte / integer codes out of char range),
+        tables with null elements, null lines, null table, parse errors in continued records"""
+        r = self.rng
+        out = []
+        ctors = [("d",), ("f", None), ("f", b""), ("f", b","), ("f", b";'"), ("f", b",\"x"), ("f", "\u00e9;".encode()), ("f", b"\0\""), ("f", b",,"),
+                 ("f", b"\n\""), ("f", b", "), ("c", 44, 34), ("c", None, 34), ("c", 44, None), ("c", None, None), ("c", 300, -1), ("c", 0, 0),
+                 ("c", I64MAX, I64MIN), ("c", 59, 39), ("c", 10, 34), ("c", 2 ** 32 + 44, 256 + 34)]
+        tables = [[], None, [b"a"], [b"a", b"b,c"], [b"", b""], [None], [b"a", None], [None, b"q"], [b"x\"y", b"\r\n", b" z "], [b"\0", b"\xff\xfe"],
+                  [b"'" + b"a" * 300]]
+
+        def sep_enc(c):
+            if c[0] == "d":
+                return 44, 34
+            if c[0] == "f":
+                if not c[1]:
+                    return None
+                return c[1][0], (c[1][1] if len(c[1]) > 1 else 34)
+            if c[1] is None or c[2] is None:
+                return None
+            return c[1] % 256, c[2] % 256
+
+        def rline(se):
+            sep, enc = se if se else (44, 34)
+            pool = [sep, enc, 0x20, 0x0a, 0x0d, 0x61, 0x62, 0x00]
+            return bytes(r.choice(pool) for _ in range(r.choice([0, 1, 2, 3, 5, 8])))
+
+        for c in ctors:
+            se = sep_enc(c)
+            for t in tables:
+                cc = CsvPCase(c, t)
+                cc.op("se"); cc.op("ie"); cc.op("ep")
+                cc.op("dn", None); cc.op("de", None)
+                cc.op("dn", rline(se)); cc.op("ie")
+                cc.op("de", rline(se)); cc.op("se")
+                for _ in range(3):
+                    cc.op(r.choice(["dn", "dn", "de"]), rline(se) if r.random() < 0.92 else None)
+                    if r.random() < 0.4:
+                        cc.op(r.choice(["ie", "ep", "se"]))
+                cc.op("ie"); cc.op("ep"); cc.op("se")
+                out.append(cc)
+        # round trip through the plugin for every constructor that yields sep != enc: serialize(T), split after LF, feed back
+        for c in ctors:
+            se = sep_enc(c)
+            if se is None or se[0] == se[1] or 10 in se:
+                continue
+            for _ in range(4):
+                row = [bytes(r.choice([se[0], se[1], 0x20, 0x0d, 0x0a, 0x61, 0x00, 0xff]) for _ in range(r.choice([0, 1, 2, 4]))) for _ in range(r.randint(1, 4))]
+                if row == [b""]:
+                    continue
+                cc = CsvPCase(c, row)
+                cc.kind = "csv.plugin_rt"
+                cc.op("se")
+                # an independent writer (RFC 4180 quoting with this separator / quote) gives the text; it is split after
+                # every LF and fed back line by line as a client would: deserialize, then deserialize_next
+                text = py_csv_write(row, se[0], se[1])
+                lines = text.split(b"\n")
+                lines = [x + b"\n" for x in lines[:-1]] + ([lines[-1]] if lines[-1] else [])
+                for k, ln in enumerate(lines):
+                    cc.op("de" if k == 0 else "dn", ln)
+                cc.op("ie")
+                cc.row, cc.text = row, text
+                out.append(cc)
+        return out
+
     # ---------------------------------------------------------------- running
     def find_maxoff(self):
         p = os.path.join(self.dir, "maxoff.probe")
@@ -908,9 +1357,9 @@ class Half:
         except build.BuildError as e:
             chk.broken_ties.append("build: %s: %s" % (e.what, e.output[-800:]))
             return
-        mods = [p for p in build_vmod.module_dirs(d) if os.path.basename(p) in ("file", "sqlite3", "utf8")]
-        if len(mods) != 3:
-            chk.broken_ties.append("build: the file / sqlite3 / utf8 modules were not built in %s" % d)
+        mods = [p for p in build_vmod.module_dirs(d) if os.path.basename(p) in ("file", "sqlite3", "utf8", "csv")]
+        if len(mods) != 4:
+            chk.broken_ties.append("build: the file / sqlite3 / utf8 / csv modules were not built in %s" % d)
             return
         env = {"LD_LIBRARY_PATH": ":".join(mods + [os.environ.get("LD_LIBRARY_PATH", "")]).rstrip(":")}
         self.dir = tempfile.mkdtemp(prefix="blocv-c18f-", dir="/var/tmp")
@@ -939,6 +1388,14 @@ class Half:
                 self.objs[c.cid] = uc
                 cases.append(c)
                 umodel += ["u%d.%d %s" % (i, j, ln) for j, ln in enumerate(uc.model_lines())]
+            for i, cc in enumerate(self.gen_csvp()):
+                c = Case("v%d" % i, cc.model_line(), cc.impl_line(), {"kind": cc.kind})
+                self.objs[c.cid] = cc
+                cases.append(c)
+            for i, pc in enumerate(self.gen_u8ops()):
+                c = Case("p%d" % i, pc.model_line(), pc.impl_line(), {"kind": pc.kind})
+                self.objs[c.cid] = pc
+                cases.append(c)
             for c in cases:
                 self.kinds[c.meta["kind"]] = self.kinds.get(c.meta["kind"], 0) + 1
             log("C18F %s: %d cases: %s" % (chk.tier, len(cases), " ".join("%s=%d" % kv for kv in sorted(self.kinds.items()))))
@@ -947,11 +1404,19 @@ class Half:
                 t1 = time.time()
                 res = f(*a, **kw)
                 return res, round(time.time() - t1, 1)
-            with ThreadPoolExecutor(max_workers=2) as ex:
-                fi = ex.submit(timed, run.run_harness, hbin, ["%s %s" % (c.cid, c.impl_line) for c in cases], timeout_s=60, workers=16,
+            # the utf8 method histories run in probe processes of their own: they pass a typed null object (`N:o0:1`), and the
+            # type number of a plugin is its import rank within the PROCESS (utf8 must be the first module imported there)
+            own = [c for c in cases if isinstance(self.objs[c.cid], U8OpsCase)]
+            rest = [c for c in cases if not isinstance(self.objs[c.cid], U8OpsCase)]
+            with ThreadPoolExecutor(max_workers=3) as ex:
+                fi = ex.submit(timed, run.run_harness, hbin, ["%s %s" % (c.cid, c.impl_line) for c in rest], timeout_s=60, workers=12,
+                               env_extra=env)
+                fu = ex.submit(timed, run.run_harness, hbin, ["%s %s" % (c.cid, c.impl_line) for c in own], timeout_s=60, workers=4,
                                env_extra=env)
                 fm = ex.submit(timed, run_driver_bigstack, ["%s %s" % (c.cid, c.model_line) for c in cases if c.model_line] + umodel, workers=8)
                 impl, chk.stats["c18f_impl_s"] = fi.result()
+                impl_u, chk.stats["c18f_impl_u8_s"] = fu.result()
+                impl.update(impl_u)
                 model, chk.stats["c18f_model_s"] = fm.result()
             chk.stats["c18f_run_s"] = round(time.time() - t, 1)
             if "#driver-error" in model:
@@ -975,6 +1440,10 @@ class Half:
             except FileNotFoundError:
                 final = "-"
             return file_impl_answer(o, iraw, final)
+        if isinstance(o, U8OpsCase):
+            return u8ops_impl_answer(o, iraw)
+        if isinstance(o, CsvPCase):
+            return csvp_impl_answer(o, iraw)
         return sql_impl_answer(o, iraw, py_read_db(o.path))
 
     def judge_all(self, cases, impl, model):
@@ -1063,11 +1532,46 @@ class Half:
             chk.record_violation("implementation (real module + independent reader) differs from the model", short,
                                  self.diff(ians2, mans), rec, stderr)
             return
+        # csv round trip through the real plugin against the independent writer: serialize(T) is its text, and feeding the
+        # text back line by line rebuilds exactly T with "record complete" and no error
+        if isinstance(o, CsvPCase) and getattr(o, "row", None) is not None and not ians.startswith(("crash", "foreign", "setup")):
+            it = ians.split(";")
+            want_se = "S:%s|%s" % (dot(o.text), o.ttok(o.row))
+            want_last = "B:0|%s" % o.ttok(o.row)
+            chk.stats["c18f_csv_rt"] = chk.stats.get("c18f_csv_rt", 0) + 1
+            if len(it) < 4 or it[1] != want_se or it[-1] != want_last or it[-2] != want_last:
+                chk.record_violation("csv round trip through the real plugin differs from the independent writer / the original table", short,
+                                     "serialize=%s want=%s; last=%s want=%s" % (it[1][:200] if len(it) > 1 else "?", want_se[:200], it[-1][:200], want_last[:200]),
+                                     rec, stderr)
+                return
+        # the POSIX-level specification (Spec.File.srun, run by the driver on a stream state of its own) against the REAL module
+        spec = m.get("spec")
+        if spec and isinstance(o, FileCase) and " final=" in ians:
+            it = ians.split(" final=", 1)[0].split(";")
+            st = spec.split(";")
+            mt = mraw.split(" final=", 1)[0].split(";")
+            cut = mt.index("U!") if "U!" in mt else len(st)
+            for i, (a, b) in enumerate(zip(it, st)):
+                if i >= cut:
+                    break
+                if b == "*":
+                    continue
+                chk.stats["c18f_spec_tokens"] = chk.stats.get("c18f_spec_tokens", 0) + 1
+                if a != b:
+                    rec2 = dict(rec)
+                    rec2["spec"] = spec[:4000]
+                    chk.record_violation("the real module differs from the POSIX-level specification (Spec.File.srun) on a stream call", short,
+                                         "call %d (%s): impl=%s spec=%s" % (i, o.toks[i][:40], a[:80], b[:80]), rec2, stderr)
+                    return
         if kf:
             chk.known_hits.setdefault(kf, {"what": entry["what"], "example": self.describe(c), "impl": self.first_diff_free(ians2)})
 
     def describe(self, c):
         o = self.objs[c.cid]
+        if isinstance(o, CsvPCase):
+            return "csv plugin: %s T=%s " % (o.ctor_tok(), o.ttok(o.table)[:80]) + " ".join(t[:60] for t in o.toks)[:400]
+        if isinstance(o, U8OpsCase):
+            return "utf8 plugin: U=utf8(%s) V=utf8(%s) " % ("null" if o.text is None else dot(o.text)[:60], dot(o.other)) + " ".join(o.toks)[:400]
         return ("file: " if isinstance(o, FileCase) else "sqlite3: ") + " ".join(t[:60] for t in o.toks)[:400]
 
     @staticmethod
@@ -1087,7 +1591,15 @@ class Half:
 
 
 def load_findings(check):
-    """kept for callers of the first version: known_findings.json is authoritative, nothing else is read"""
+    """known_findings.json is authoritative; the side file known_findings_c18f.json holds the findings recorded by this
+    half that are NOT YET merged into it (entries whose id is already known are ignored)"""
+    p = os.path.join(build.VERIF, "known_findings_c18f.json")
+    if not os.path.exists(p):
+        return None
+    have = {f["id"] for f in check.findings}
+    for f in json.load(open(p)).get("findings", []):
+        if f.get("property") == check.pid and f["id"] not in have:
+            check.findings.append(f)
     return None
 
 
@@ -1104,7 +1616,7 @@ def replay(check, viols):
         return 1
     d = build.impl_build()
     hbin = build.harness_build("blocprobe")
-    mods = [p for p in build_vmod.module_dirs(d) if os.path.basename(p) in ("file", "sqlite3")]
+    mods = [p for p in build_vmod.module_dirs(d) if os.path.basename(p) in ("file", "sqlite3", "utf8", "csv")]
     env = {"LD_LIBRARY_PATH": ":".join(mods)}
     rc = 0
     for v in viols:
@@ -1153,7 +1665,28 @@ RULE = ("file: every history below is run on the real module (ASan+UBSan build, 
         "the statement state machine incl. close() with a live statement followed by the destructor / reopen + every statement call "
         "(31 histories), and bind() of a temporary tuple followed by statements that release it and by execute() (48 histories); "
         "utf8: at(pos) through the real plugin on 8 strings x 20 positions {-1,0..4,n-1,n,n+1,255,256,10^7,2^31,2^32,2^32+1,INT64_MAX,"
-        "INT64_MIN,-2^32,-2,null}.")
+        "INT64_MIN,-2^32,-2,null}; EVERY method of the utf8 plugin's table except the five table-driven transformations (empty, count, "
+        "rawsize, reserve, clear, append(int), append(string), concat(utf8), string, at, remove, insert(pos,int), insert(pos,utf8), "
+        "substr 1/2) through the real plugin on 12 strings (null, empty, ASCII, 1-4 byte characters, NUL, ill-formed, truncated "
+        "sequences that a later append(string) completes, 300 characters) x 3 second objects: a fixed history of 43 calls with the "
+        "receiver itself / another object / a typed null object as utf8 argument, insert of the object into ITSELF at every position "
+        "class (39 histories), 150 random histories of 3-12 calls (positions / counts / code points incl. -1, INT64 extremes, 2^32+x, "
+        "null), state read back after every call (count, rawsize, string); reserve() with -1, -2, 2^61-1, 2^61, 2^62, INT64 extremes, "
+        "2^40, 2^50 (recorded finding C18.utf8_reserve_unchecked). csv plugin glue (plugin_csv.cpp) through the real plugin: 21 "
+        "constructor calls (default; string null / empty / 1, 2, 3 bytes / multi-byte / NUL / LF / space / sep = enc; integer codes "
+        "incl. null, 300, -1, INT64 extremes, 2^32+44) x 11 states of the table variable (empty, null table, null elements first / "
+        "last / only, quotes, CR LF, NUL, 0xff, 300 bytes): serialize(T), in_error, error_pos, deserialize / deserialize_next with "
+        "null and random lines over {sep, enc, space, LF, CR, a, b, NUL}, T read back after every call (231 histories; a null LAST "
+        "element is the recorded finding C18.csv_next_null_last_element); round trip against an INDEPENDENT writer (Python, RFC "
+        "4180 quoting with the object's separator / quote bytes): serialize(T) must be its text and feeding the text back line by "
+        "line (deserialize, deserialize_next) must rebuild T (46 random tables over every constructor with sep != enc, neither LF). "
+        "file: read sizes 4095, 4096, 4097, 5000, 8191, 8192, 8193, 12288, 12289 at offsets 0, 1, 100, 4095, 4096, 4097 of a 30000-byte "
+        "file (more data follows every request), both variants, followed by position / read / readln / seekcur(-3) / read (108 "
+        "histories); every stream call of every file history is ALSO answered by the POSIX-level specification (Spec.File.srun on a "
+        "stream state of its own, `spec=` of the driver) and compared with the real module. sqlite3: table t(a NOT NULL): a "
+        "step-time failure (constraint violation) of exec() / execute() followed by further bind (variable or temporary tuple, "
+        "object item) / execute / header / fetch / finalize+prepare calls on the same connection (5 null-stored values x 3 "
+        "prefixes x 11 tails + 5 exec histories = 170), 35% of the random histories on the NOT NULL table.")
 
 
 class C18F(Check):
@@ -1169,7 +1702,9 @@ class C18F(Check):
         "glibc stdio and SQLite themselves (their behaviour is what the models' fread/fwrite/fseek and storage classes describe)",
     ]
     assumptions = ["one handle per file at a time (stdio buffering unobservable); regular files in an existing writable directory; "
-                   "SQL text fixed to CREATE TABLE t(a) / INSERT INTO t VALUES(?) / SELECT a, typeof(a) FROM t / SELECT ?1, typeof(?1)"]
+                   "SQL text fixed to CREATE TABLE t(a) | t(a NOT NULL) / INSERT INTO t VALUES(?) / SELECT a, typeof(a) FROM t / SELECT ?1, typeof(?1); "
+                   "fopen modes with the glibc mmap flag `m` or a comma are outside the model (nothing compared after such an open); "
+                   "utf8: the five table-driven transformations are not modelled; reserve() requests are <= 10^6 or >= 2^40 elements"]
 
     def __init__(self, tier, seed):
         super().__init__(tier, seed)
